@@ -1,13 +1,13 @@
 CONSTANTS
- Producers = {"p1","p2"}
- K = 4
- Shapes <- ShOk12
- MaxFaults = 2
+ Producers = {"p1","p2","p3"}
+ K = 1
+ Shapes <- ShOk1
+ MaxFaults = 0
  MaxCrashes = 1
- MaxIdxLoss = 0
- InlineAt = 3
- Interval = 3
- MBs = {80}
+ MaxIdxLoss = 1
+ InlineAt = 0
+ Interval = 2
+ MBs = {9}
  FixRestore = TRUE
  FixPublish = TRUE
  FixMonotone = TRUE
@@ -21,8 +21,9 @@ CONSTANTS
  DevOrphanNotSkipped = FALSE
  DevOrphanAlwaysSkipped = FALSE
  DevNoFlushOnAck = FALSE
- DevTolerateLostIdx = FALSE
+ DevTolerateLostIdx = TRUE
 INIT Init
 NEXT Next
+VIEW View
 CHECK_DEADLOCK FALSE
-INVARIANTS EmitSched C01_AckedDurable C02_Unique C02_Monotone C02_NoGap C02_BaseIsStored C05_Monotone C05_NotAhead C06_NoHide C06_NoReuse
+INVARIANTS C04_Progress
